@@ -163,6 +163,37 @@ def main():
                     ck.violation("operator-equals-tensor",
                                  "conversion:%s:td=%s" % (theory, td),
                                  dict(rp, err=e), rp)
+                # conversion as the FIRST thing done with a fresh
+                # operator-form object inside a basis context (of the
+                # Hamiltonian and of another operator), read there and after
+                # the context is left
+                if not td:
+                    Bm = numpy.random.RandomState(n + s).randn(n, n)
+                    Aop = qr.qm.SelfAdjointOperator(data=(Bm + Bm.T) / 2)
+                    for cname, cop in (("H", ham), ("A", Aop)):
+                        if theory == "Lindblad":
+                            Rfresh = LindbladForm(ham, sbi, as_operators=True)
+                        else:
+                            Rfresh, _h = ag.get_RelaxationTensor(
+                                ta, relaxation_theory=theory,
+                                as_operators=True)
+                        with qr.eigenbasis_of(cop):
+                            Rfresh.convert_2_tensor()
+                            c1 = numpy.array(Rfresh.data)
+                            c2 = numpy.array(Rte.data)
+                        c3 = numpy.array(Rfresh.data)
+                        c4 = numpy.array(Rte.data)
+                        sc = max(float(numpy.abs(c2).max()), 1e-300)
+                        e = max(float(numpy.abs(c1 - c2).max()),
+                                float(numpy.abs(c3 - c4).max())) / sc
+                        ck.case("forms-agree:conversion-in-context",
+                                (s, theory, cname), sample=dict(
+                                    rp, context=cname, err=e))
+                        if e > 1e-10:
+                            ck.violation(
+                                "operator-equals-tensor",
+                                "conversion-first-in-context:%s" % theory,
+                                dict(rp, context=cname, err=e), rp)
         # time-dependent tensor: zero at t = 0, equals TI tensor at the end
         rp = dict(kind="td-limits", seed=ck.seed, system=s, N=Nm)
         with ck.guarded("td-limits", "td", rp, rp):
